@@ -22,6 +22,23 @@ TOP = 1 << 400
 
 
 # ---------------------------------------------------------------- reference model
+class FK(int):
+    """Keys are falsy (like dns.name.empty, the apex of a relativized zone, or 0): code that
+    tests a key's truth value where it means 'is not None' goes wrong for every key."""
+    __slots__ = ()
+
+    def __bool__(self):
+        return False
+
+
+class FV(tuple):
+    """Values are falsy as well (an empty node, 0, b'' are all legitimate values)."""
+    __slots__ = ()
+
+    def __bool__(self):
+        return False
+
+
 class Model:
     """Sorted list + dict: the boring reference."""
 
@@ -35,7 +52,7 @@ class Model:
     def gapkey(self, g):
         lo = self.ks[g - 1] if g > 0 else -TOP   # the key domain is symmetric about 0, so that the falsy key 0 is the first key of every history
         hi = self.ks[g] if g < len(self.ks) else TOP
-        k = (lo + hi) // 2
+        k = FK((lo + hi) // 2)
         assert lo < k < hi
         return k
 
@@ -61,7 +78,7 @@ def apply_op(kind, tree, model, op, via=0):
     if o == "i":
         k = model.gapkey(r)
         model.ver += 1
-        v = ("v", model.ver)
+        v = FV(("v", model.ver))
         if kind == "dict":
             if via == 0:
                 tree[k] = v
@@ -76,7 +93,7 @@ def apply_op(kind, tree, model, op, via=0):
     elif o == "r":
         k = model.ks[r]
         model.ver += 1
-        v = ("v", model.ver)
+        v = FV(("v", model.ver))
         if kind == "dict":
             if via == 0:
                 tree[k] = v
